@@ -353,7 +353,7 @@ def explore_serial(part, budget_s=600, max_paths=None, stop_on_violation=False):
 # ---------------------------------------------------------------------------
 # canaries: in-memory source mutations of the code under test (never touches /repo)
 
-def mutate(owner, fname, old, new, count=1):
+def mutate(owner, fname, old, new, count=1, accessor='fget'):
     """re-compile owner.fname with `old` replaced by `new` in its source; returns an undo callable"""
     import inspect
     import textwrap
@@ -361,7 +361,7 @@ def mutate(owner, fname, old, new, count=1):
     target = orig
     wrap = None
     if isinstance(orig, property):
-        target, wrap = orig.fget, 'property'
+        target, wrap = getattr(orig, accessor), 'property'
     elif isinstance(orig, (staticmethod, classmethod)):
         target, wrap = orig.__func__, type(orig)
     src = textwrap.dedent(inspect.getsource(target))
@@ -385,7 +385,7 @@ def mutate(owner, fname, old, new, count=1):
         if not hasattr(newf, k):
             setattr(newf, k, v)
     if wrap == 'property':
-        newobj = property(newf, orig.fset, orig.fdel)
+        newobj = property(newf, orig.fset, orig.fdel) if accessor == 'fget' else property(orig.fget, newf, orig.fdel)
     elif wrap is not None:
         newobj = wrap(newf)
     else:
